@@ -3,6 +3,7 @@ package main
 // Symbolic executor over go/ssa: path enumeration, per-field heap arrays, bit-vector semantics.
 
 import (
+	"encoding/hex"
 	"fmt"
 	"go/constant"
 	"go/token"
@@ -337,7 +338,9 @@ func opaqueSort(t types.Type) (srtT, bool) {
 		return sBool, true
 	case "sync.WaitGroup":
 		return bvSort(64), true
-	case "sync.Pool", "time.Time", "strings.Builder", "bytes.Buffer", "context.Context":
+	case "strings.Builder":
+		return srtT{"Str", 0}, true // the content written so far (concrete strings are tracked: see concreteStr)
+	case "sync.Pool", "time.Time", "bytes.Buffer", "context.Context":
 		return sRef, true
 	}
 	return srtT{}, false
@@ -350,6 +353,9 @@ func (x *ctx) leafSort(t types.Type) (srtT, bool) {
 		return srtT{n, 0}, true
 	}
 	if s, ok := opaqueSort(t); ok {
+		if s.name == "Str" {
+			x.declareSort("Str")
+		}
 		return s, true
 	}
 	switch u := t.Underlying().(type) {
@@ -587,6 +593,27 @@ func (x *ctx) typeTag(st *state, r term, t types.Type) {
 	st.define(or(eq(r, null), fmt.Sprintf("(= (select G_rtype %s) %s)", r.s, bvlit(uint64(id), 16))))
 }
 
+// typeIDOf: the tag of a pointer-to-struct type (as assigned by typeTag); ok=false for other types.
+func (x *ctx) typeIDOf(t types.Type) (int, bool) {
+	u, ok := t.Underlying().(*types.Pointer)
+	if !ok {
+		return 0, false
+	}
+	if _, ok := u.Elem().Underlying().(*types.Struct); !ok {
+		return 0, false
+	}
+	if _, opaque := opaqueSort(u.Elem()); opaque {
+		return 0, false
+	}
+	name := "ptr:" + structName(u.Elem())
+	id, have := x.typeIDs[name]
+	if !have {
+		id = len(x.typeIDs) + 1
+		x.typeIDs[name] = id
+	}
+	return id, true
+}
+
 // noteAllocated: a reference read from memory denotes an object that already exists (or nil).
 func (x *ctx) noteAllocated(st *state, r term) {
 	if x.noAllocFacts || len(r.s) > 400 {
@@ -678,6 +705,9 @@ func (x *ctx) asTerm(v val, t types.Type) term {
 	}
 	if v.fn != nil || v.cb != nil {
 		n := "fn_" + symName(fmt.Sprint(v.fn))
+		if v.fn != nil && v.fn.Origin() != nil {
+			n = "fn_" + symName(fmt.Sprint(v.fn.Origin())) // an instantiation of a generic function is that function
+		}
 		if v.cb != nil {
 			n = "cb_" + v.cb.spec.Name
 		}
@@ -700,8 +730,21 @@ func (x *ctx) asTerm(v val, t types.Type) term {
 			x.fnVals = map[string]val{}
 		}
 		if _, have := x.fnVals[n]; !have {
-			x.fnVals[n] = v
 			x.decls = append(x.decls, fmt.Sprintf("(assert (not (= %s (_ bv0 64))))", n))
+			if v.fn != nil && len(v.bind) == 0 && v.fn.Parent() == nil {
+				// two different top-level functions are different function values
+				var others []string
+				for o, ov := range x.fnVals {
+					if ov.fn != nil && len(ov.bind) == 0 && ov.fn.Parent() == nil && ov.cb == nil {
+						others = append(others, o)
+					}
+				}
+				sort.Strings(others)
+				for _, o := range others {
+					x.decls = append(x.decls, fmt.Sprintf("(assert (not (= %s %s)))", n, o))
+				}
+			}
+			x.fnVals[n] = v
 		}
 		return term{n, sRef}
 	}
@@ -943,12 +986,7 @@ func (x *ctx) constVal(c *ssa.Const) val {
 		u, _ := constant.Uint64Val(c.Value)
 		return scalar(mkbv(u, s.w))
 	case constant.String:
-		n := "str_" + symName(fmt.Sprintf("%x", constant.StringVal(c.Value)))
-		if len(n) > 40 {
-			n = n[:40]
-		}
-		x.declare(n, s.name)
-		return scalar(term{n, s})
+		return scalar(x.strConst(constant.StringVal(c.Value), s))
 	case constant.Float:
 		if s.isBV() { // integer-typed constant written as float
 			f, _ := constant.Float64Val(c.Value)
@@ -959,6 +997,35 @@ func (x *ctx) constVal(c *ssa.Const) val {
 		return scalar(term{n, s})
 	}
 	return scalar(x.freshTerm("const", s))
+}
+
+// strConst is the term of a concrete string: its name carries the content (hex), so that two concrete strings are
+// equal iff their terms are; strings too long for that get a name that concreteStr does not decode.
+func (x *ctx) strConst(c string, s srtT) term {
+	n := "str_" + fmt.Sprintf("%x", c)
+	if len(n) > 40 {
+		n = "strl_" + n[4:39]
+	}
+	x.declareSort("Str")
+	x.declare(n, s.name)
+	return term{n, s}
+}
+
+// concreteStr decodes a term made by strConst (or the zero value of the string sort: the empty string).
+func concreteStr(t term) (string, bool) {
+	if t.srt.name != "Str" {
+		return "", false
+	}
+	if t.s == "zero_Str" {
+		return "", true
+	}
+	if strings.HasPrefix(t.s, "str_") {
+		b, err := hex.DecodeString(strings.TrimPrefix(t.s, "str_"))
+		if err == nil {
+			return string(b), true
+		}
+	}
+	return "", false
 }
 
 func (x *ctx) globalPtr(g *ssa.Global) val {
@@ -1030,8 +1097,18 @@ func (x *ctx) binop(op token.Token, a, b term, xt types.Type) term {
 	case token.SHR:
 		o = pick("bvlshr", "bvashr")
 	case token.EQL:
+		if ca, ok := concreteStr(a); ok {
+			if cb, ok := concreteStr(b); ok {
+				return mkbool(ca == cb)
+			}
+		}
 		return term{eq(a, b), sBool}
 	case token.NEQ:
+		if ca, ok := concreteStr(a); ok {
+			if cb, ok := concreteStr(b); ok {
+				return mkbool(ca != cb)
+			}
+		}
 		return term{not(eq(a, b)), sBool}
 	case token.LSS:
 		o, res = pick("bvult", "bvslt"), sBool
@@ -1342,10 +1419,19 @@ func (x *ctx) run(st *state, fr *frame, b *ssa.BasicBlock, idx int, prev *ssa.Ba
 			a := x.get(fr, st, in.X)
 			if in.CommaOk {
 				ok := x.freshTerm("typeok", sBool)
+				res := a
 				if a.t.s != "" && a.t.srt == sRef {
 					st.define(implies(ok.s, not(eq(a.t, null)))) // a successful assertion means the interface was not nil
+					// an assertion to a pointer-to-struct type succeeds exactly when the object carries that type's tag
+					// (objects are tagged where they are allocated and where they are received with a static pointer type)
+					if id, tagged := x.typeIDOf(in.AssertedType); tagged {
+						x.declare("G_rtype", "(Array (_ BitVec 64) (_ BitVec 16))")
+						st.define(fmt.Sprintf("(= %s (and (not (= %s %s)) (= (select G_rtype %s) %s)))", ok.s, a.t.s, null.s, a.t.s, bvlit(uint64(id), 16)))
+					}
+					// a failed assertion yields the zero value
+					res = scalar(ite(ok.s, a.t, null))
 				}
-				fr.regs[in] = val{agg: true, fields: []val{a, scalar(ok)}}
+				fr.regs[in] = val{agg: true, fields: []val{res, scalar(ok)}}
 			} else {
 				fr.regs[in] = a
 			}
